@@ -233,7 +233,7 @@ def ob_bigint(cfg, N, op, alias=0):
     W = N + 8
     za, zb = z3.ZeroExt(8, a), z3.ZeroExt(8, b)
     key = "%s:BigInt<%d>::%s:alias=%d" % (cfg, N, op, alias)
-    extra = {"kernel": "bigint_%d_%s" % (N, op), "backend": cfg, "alias": alias}
+    extra = {"kernel": "bigint_%d_%s" % (N, {"shift_left_in_word1": "multiply2"}.get(op, op)), "backend": cfg, "alias": alias}
     B = NS + r"BigInt<%d>::" % N
 
     def objs(two=True):
